@@ -177,7 +177,7 @@ Spec == Init /\ [][Next]_mvars
 ShapeInv == (phase = "run" /\ pc = 0) => B!ShapeOK(shape, ExhBits)
 \* every script step is enabled: no behaviour stops early, every behaviour ends in Emit
 NotStuck == (phase = "run" /\ todo # <<>>) => B!Enabled(shape, st, Resolve(shape, st, Head(todo)))
-Complete == phase = "done" => pc = Len(log) /\ pc >= 8 * Len(B!Layout(shape)) + 14
+Complete == phase = "done" => pc = Len(log) /\ pc = 8 * Len(B!Layout(shape)) + 16
 \* no aliasing: only the destination object of the step changes; <<= leaves cur alone; the new
 \* value of the destination is well formed and determined by its packed bits
 Frame == [][(phase = "run" /\ pc' = pc + 1) =>
